@@ -288,9 +288,11 @@ class RankRunner:
                 rec['snapshot_mutated'] = bad
             elif kind == 'reload_live':
                 # same object: second-order data recomputed from its own factors at the current damping
-                with warnings.catch_warnings():
-                    warnings.simplefilter('ignore')
-                    self.pre.load_state_dict(pickle.loads(pickle.dumps(self.pre.state_dict())), compute_inverses=True)
+                # (optionally only on a subset of ranks: valid where the load implies no collective, i.e. MEM-OPT or a world of one)
+                if op.get('ranks') is None or self.rank in op['ranks']:
+                    with warnings.catch_warnings():
+                        warnings.simplefilter('ignore')
+                        self.pre.load_state_dict(pickle.loads(pickle.dumps(self.pre.state_dict())), compute_inverses=True)
             elif kind == 'load':
                 sd = self.pre.state_dict(include_factors=op.get('include_factors', True))
                 blob = pickle.dumps(sd)
